@@ -524,7 +524,7 @@ func TestC09(t *testing.T) {
 		for _, a := range vocab.StructTypes {
 			for _, b := range vocab.StructTypes {
 				for _, full := range []bool{false, true} {
-					for _, variant := range []string{"ids-differ", "types-differ", "ids-differ-host", "ids-differ-port", "ids-differ-query", "ids-differ-query-value", "ids-differ-repeated-key", "ids-differ-repeated-key-multiset"} {
+					for _, variant := range []string{"ids-differ", "types-differ", "ids-differ-host", "ids-differ-port", "ids-differ-query", "ids-differ-query-value", "ids-differ-repeated-key", "ids-differ-repeated-key-multiset", "ids-differ-opaque"} {
 						if a.Name() == "Link" || b.Name() == "Link" {
 							continue // the clause speaks of objects
 						}
@@ -541,6 +541,9 @@ func TestC09(t *testing.T) {
 							ida, idb = "https://example.com/things/1?page=1", "https://example.com/things/1?page=2"
 						case "ids-differ-repeated-key":
 							ida, idb = "https://example.com/things/1?tag=a", "https://example.com/things/1?tag=a&tag=b"
+						case "ids-differ-opaque":
+							// ids that are URIs without an authority: different strings are different objects
+							ida, idb = "urn:uuid:6e8bc430-9c3a-11d9-9669-0800200c9a66", "urn:uuid:6e8bc430-9c3a-11d9-9669-0800200c9a67"
 						case "ids-differ-repeated-key-multiset":
 							ida, idb = "https://example.com/things/1?x=1&x=1", "https://example.com/things/1?x=1&x=2"
 						}
